@@ -33,8 +33,6 @@ import (
 	"github.com/AdguardTeam/AdGuardHome/verifsim/dnsnode"
 	"github.com/AdguardTeam/AdGuardHome/verifsim/env"
 	"github.com/AdguardTeam/AdGuardHome/verifsim/kernel"
-	"github.com/AdguardTeam/AdGuardHome/verifsim/sched"
-	"github.com/AdguardTeam/golibs/cache"
 	"github.com/miekg/dns"
 	"golang.org/x/net/publicsuffix"
 	"pgregory.net/rapid"
@@ -168,14 +166,6 @@ type Op struct {
 	// db: from now on the service holds N filler hashes under the prefix of Of
 	// (see Fill).
 	Fill []Fill `json:"fill,omitempty"`
-	// par: the checks of Sub (Checker.Check, no lookup faults) run as concurrent
-	// tasks under the cooperative scheduler seeded with Seed, which preempts
-	// with probability Pct percent at every operation on the shared cache and
-	// at the exchange with the lookup service; afterwards each of them is
-	// repeated sequentially.
-	Seed uint64 `json:"seed,omitempty"`
-	Pct  int    `json:"pct,omitempty"`
-	Sub  []Op   `json:"sub,omitempty"`
 }
 
 // Fill says that the lookup service's database holds N additional full hashes
@@ -445,8 +435,7 @@ func Gen(t *rapid.T, tier string) any {
 	}
 	faultPct := rapid.SampledFrom([]int{0, 15, 30, 50}).Draw(t, "fault_pct")
 	for i, n := 0, rapid.IntRange(10, maxOps).Draw(t, "n_ops"); i < n; i++ {
-		k := rapid.IntRange(0, 99).Draw(t, "kind")
-		if k >= 40 && k < 66 {
+		if k := rapid.IntRange(0, 99).Draw(t, "kind"); k >= 40 && k < 66 {
 			sc.Ops = append(sc.Ops, Op{K: "advance", Ms: rapid.SampledFrom(advances).Draw(t, "adv_ms")})
 			continue
 		} else if k >= 66 && k < 77 {
@@ -490,22 +479,6 @@ func Gen(t *rapid.T, tier string) any {
 			if len(op.Add)+len(op.Del)+len(op.Fill) > 0 {
 				sc.Ops = append(sc.Ops, op)
 			}
-			continue
-		}
-		if k >= 94 && !sc.single() {
-			// Several checks in flight at once: of the same host, or of hosts of
-			// the pool (parents, children and prefix partners of each other by
-			// construction of the pool).  (Not with a cache under LRU pressure:
-			// the regime of the listed finding.)
-			op := Op{K: "par", Seed: rapid.Uint64().Draw(t, "par_seed"), Pct: rapid.SampledFrom([]int{20, 50, 80}).Draw(t, "par_pct"), Fmt: rapid.IntRange(0, 5).Draw(t, "fmt")}
-			h := rapid.SampledFrom(sc.Pool).Draw(t, "host")
-			for j, m := 0, rapid.IntRange(2, 3).Draw(t, "par_n"); j < m; j++ {
-				if j > 0 && rapid.Bool().Draw(t, "par_other") {
-					h = rapid.SampledFrom(sc.Pool).Draw(t, "host")
-				}
-				op.Sub = append(op.Sub, Op{K: "check", Via: "direct", Host: h, Fmt: op.Fmt})
-			}
-			sc.Ops = append(sc.Ops, op)
 			continue
 		}
 		op := Op{K: "check"}
@@ -588,9 +561,6 @@ type lookup struct {
 	groups     int          // prefixes asked in the current check
 	askedNow   map[pfx]bool // the prefixes asked in the current check
 	c          *kernel.Ctx
-	// par: a concurrent phase runs: the exchange is a scheduling point and
-	// takes no simulated time.
-	par bool
 }
 
 func (l *lookup) Address() string { return "sim-lookup:53" }
@@ -619,11 +589,7 @@ func (l *lookup) parse(name string) (ps []pfx, ok bool) {
 func (l *lookup) Exchange(req *dns.Msg) (resp *dns.Msg, err error) {
 	q := req.Question[0]
 	l.log = append(l.log, asked{name: q.Name, qtype: q.Qtype})
-	if l.par {
-		sched.Yield()
-	} else {
-		time.Sleep(5 * time.Millisecond)
-	}
+	time.Sleep(5 * time.Millisecond)
 	fire := func() {
 		l.fired = l.fault
 		l.c.Fault(l.fault)
@@ -795,8 +761,6 @@ type runner struct {
 	bound uint
 	// cachedOnce: hosts that were answered without a lookup at least once.
 	fullyLooked map[string]time.Time
-	// abandon: a concurrent phase ended in a deadlock.
-	abandon bool
 }
 
 func (r *runner) newChecker() {
@@ -807,31 +771,9 @@ func (r *runner) newChecker() {
 		CacheTime:   time.Duration(r.sc.CacheTimeS) * time.Second,
 		CacheSize:   r.sc.CacheSize,
 	})
-	// Every operation on the cache takes the cache's lock: a scheduling point
-	// during a concurrent phase (and nothing otherwise).
-	r.chk.cur.VerifWrapCache(func(c cache.Cache) cache.Cache { return &yieldCache{c} })
 	r.bound = 0
 	r.fullyLooked = map[string]time.Time{}
 	r.lk.snaps = map[pfx][]snap{}
-}
-
-// yieldCache makes the operations on the checker's cache scheduling points of
-// a concurrent phase.
-type yieldCache struct{ cache.Cache }
-
-func (y *yieldCache) Get(k []byte) []byte {
-	sched.Yield()
-	return y.Cache.Get(k)
-}
-
-func (y *yieldCache) Set(k, v []byte) bool {
-	sched.Yield()
-	return y.Cache.Set(k, v)
-}
-
-func (y *yieldCache) Del(k []byte) {
-	sched.Yield()
-	y.Cache.Del(k)
 }
 
 // rebuild recomputes what the service holds under prefix p.
@@ -1023,27 +965,27 @@ func (r *runner) viaDNS(op Op) (o outcome, err error) {
 	return o, nil
 }
 
-func (r *runner) check(i int, op Op) error { return r.checkOne(i, op, nil) }
-
-// checkOne performs one check and judges it.  pre, if not nil, is the outcome
-// of the check when it ran as a task of a concurrent phase (the questions of
-// the phase cannot be told apart by check, so none are attributed to it, and
-// every answer about a prefix that is within the cache time is a legitimate
-// source of its verdict, as is the database, which does not change during the
-// phase).
-func (r *runner) checkOne(i int, op Op, pre *outcome) error {
+func (r *runner) check(i int, op Op) error {
 	host := strings.ToLower(op.Host)
-	var candHashes []hash
-	for _, c := range candidates(host) {
-		candHashes = append(candHashes, sum(c))
+	cands := candidates(host)
+	var (
+		candHashes []hash
+		allowed    = map[string]string{} // hex prefix -> candidate
+		truth      bool
+		listed     string
+	)
+	for _, c := range cands {
+		h := sum(c)
+		candHashes = append(candHashes, h)
+		allowed[pfxHex(pfxOf(h))] = c
+		if r.lk.db[h] && !truth {
+			truth, listed = true, c
+		}
 	}
 	lk := r.lk
 	lk.fault, lk.extra, lk.fmtK, lk.cur = op.Fault, op.Extra, op.Fmt, candHashes
 	lk.fired, lk.hashesSent, lk.groups, lk.askedNow = "", 0, 0, map[pfx]bool{}
 	n0 := len(lk.log)
-	if pre != nil {
-		return r.judge(i, op, *pre, nil, true)
-	}
 	// Reach: before this check, the newest answer about a candidate's prefix is
 	// past the cache time and says something else than the database does now.
 	for _, h := range candHashes {
@@ -1083,29 +1025,7 @@ func (r *runner) checkOne(i int, op Op, pre *outcome) error {
 		return fmt.Errorf("harness: unknown via %q", op.Via)
 	}
 	lk.fault, lk.extra = "", nil
-	return r.judge(i, op, o, lk.log[n0:], false)
-}
-
-// judge compares the outcome of one check and the questions it sent with the
-// reference.  overlapped: the check ran as a task of a concurrent phase.
-func (r *runner) judge(i int, op Op, o outcome, qs []asked, overlapped bool) error {
-	lk := r.lk
-	host := strings.ToLower(op.Host)
-	cands := candidates(host)
-	var (
-		candHashes []hash
-		allowed    = map[string]string{} // hex prefix -> candidate
-		truth      bool
-		listed     string
-	)
-	for _, c := range cands {
-		h := sum(c)
-		candHashes = append(candHashes, h)
-		allowed[pfxHex(pfxOf(h))] = c
-		if r.lk.db[h] && !truth {
-			truth, listed = true, c
-		}
-	}
+	qs := lk.log[n0:]
 	r.bound += 64 * uint(lk.groups+lk.hashesSent)
 
 	// What was sent; the event log must not depend on anything the property
@@ -1122,11 +1042,7 @@ func (r *runner) judge(i int, op Op, o outcome, qs []asked, overlapped bool) err
 	case o.blocked:
 		res = "blocked"
 	}
-	if overlapped {
-		r.c.Eventf("check %d overlapped %s truth=%v(%s) -> %s [%s]", i, op.Host, truth, listed, res, o.detail)
-	} else {
-		r.c.Eventf("check %d %s %s truth=%v(%s) fault=%s fired=%s -> %s [%s] lookups=%v", i, op.Via, op.Host, truth, listed, op.Fault, lk.fired, res, o.detail, qnames)
-	}
+	r.c.Eventf("check %d %s %s truth=%v(%s) fault=%s fired=%s -> %s [%s] lookups=%v", i, op.Via, op.Host, truth, listed, op.Fault, lk.fired, res, o.detail, qnames)
 
 	// ---- privacy: nothing but allowed prefixes in any question.
 	icannPfx := map[string]string{}
@@ -1184,11 +1100,6 @@ func (r *runner) judge(i int, op Op, o outcome, qs []asked, overlapped bool) err
 		r.c.Probe("truth_clean")
 	}
 	switch {
-	case overlapped:
-		r.c.Probe("par_check")
-		if truth {
-			r.c.Probe("par_check_listed")
-		}
 	case len(cands) == 0:
 		r.c.Probe("no_candidates")
 	case len(qs) == 0:
@@ -1222,7 +1133,7 @@ func (r *runner) judge(i int, op Op, o outcome, qs []asked, overlapped bool) err
 		r.c.Probe("listed_with_prefix_sibling")
 		if n >= 5 {
 			r.c.Probe("listed_under_crowded_prefix")
-			if len(qs) == 0 && !overlapped {
+			if len(qs) == 0 {
 				r.c.Probe("cache_hit_blocked_crowded_prefix")
 			}
 		}
@@ -1345,10 +1256,6 @@ func (r *runner) judge(i int, op Op, o outcome, qs []asked, overlapped bool) err
 	default:
 		v = kernel.Violationf("fresh-clean-for-listed-name", "%s", desc)
 	}
-	if overlapped && !strings.HasPrefix(v.Class, "blocked-by-icann-suffix-hash") {
-		// (Where the verdict of an overlapped check came from is not known.)
-		v = kernel.Violationf("overlapped-check-wrong-verdict", "%s", desc)
-	}
 	if r.c.Tolerate(v) || replayTolerated[v.Class] {
 		// A listed finding: the cache is wrong from here on; carry on with a
 		// fresh checker (empty cache), as after a restart.
@@ -1357,75 +1264,6 @@ func (r *runner) judge(i int, op Op, o outcome, qs []asked, overlapped bool) err
 		return nil
 	}
 	return v
-}
-
-// par runs the checks of op.Sub as concurrent tasks sharing the cache, then
-// repeats each of them sequentially: the overlapped checks and the ones that
-// follow must get the verdict the reference allows (the database does not
-// change during the phase; the cache never changes the verdict).
-func (r *runner) par(i int, op Op) error {
-	lk := r.lk
-	lk.fault, lk.extra, lk.fmtK, lk.cur = "", nil, op.Fmt, nil
-	lk.fired, lk.hashesSent, lk.groups, lk.askedNow = "", 0, 0, map[pfx]bool{}
-	outs := make([]outcome, len(op.Sub))
-	var names []string
-	var fns []func()
-	// An upper bound of what the answers of the phase can occupy in the cache
-	// that does not depend on the interleaving.
-	var bound uint
-	for j, s := range op.Sub {
-		host := strings.ToLower(s.Host)
-		for _, c := range candidates(host) {
-			bound += 64 * uint(1+len(lk.byPfx[pfxOf(sum(c))]))
-		}
-		for _, c := range icannParents(host) {
-			bound += 64 * uint(1+len(lk.byPfx[pfxOf(sum(c))]))
-		}
-		names = append(names, "check")
-		fns = append(fns, func() {
-			b, err := r.chk.Check(host)
-			outs[j] = outcome{blocked: b, failed: err != nil, detail: fmt.Sprintf("blocked=%v err=%v", b, err)}
-		})
-	}
-	n0 := len(lk.log)
-	lk.par = true
-	res := sched.Run(op.Seed, op.Pct, names, fns)
-	lk.par = false
-	r.c.Probes["sched_steps"] += res.Steps
-	r.c.Probes["sched_switches"] += res.Switches
-	if res.Deadlock != "" {
-		r.abandon = true
-		return kernel.Violationf("deadlock: "+res.Deadlock, "%d concurrent checks, schedule seed %d: every task waits for a lock:\n%s", len(op.Sub), op.Seed, res.Detail)
-	}
-	kernel.Wait()
-	r.c.Fault("concurrent_checks")
-	if len(lk.log) > n0 {
-		r.c.Probe("par_lookup_sent")
-	}
-	if len(lk.log)-n0 > 1 {
-		r.c.Probe("par_lookups_overlap")
-	}
-	lk.groups, lk.hashesSent = 0, 0
-	r.bound += bound
-	r.c.Eventf("par %d: %d checks at once", i, len(op.Sub))
-	wrap := func(err error) error {
-		if v, ok := err.(*kernel.Violation); ok {
-			v.Msg = fmt.Sprintf("concurrent phase of %d checks (schedule seed %d pct %d): %s", len(op.Sub), op.Seed, op.Pct, v.Msg)
-		}
-		return err
-	}
-	for j, s := range op.Sub {
-		if err := r.checkOne(i, s, &outs[j]); err != nil {
-			return wrap(err)
-		}
-	}
-	// The checks that follow the phase.
-	for _, s := range op.Sub {
-		if err := r.check(i, s); err != nil {
-			return wrap(err)
-		}
-	}
-	return nil
 }
 
 // replayTolerated works around the driver not passing the list of known
@@ -1466,7 +1304,6 @@ var replayTolerated = func() map[string]bool {
 func Run(t *testing.T, scAny any, c *kernel.Ctx) error {
 	sc := scAny.(*Scenario)
 	dnsnode.InitProcess()
-	sched.Init()
 	dir, err := kernel.TempDir("c19")
 	if err != nil {
 		return err
@@ -1502,11 +1339,7 @@ func Run(t *testing.T, scAny any, c *kernel.Ctx) error {
 		if err != nil {
 			return err
 		}
-		defer func() {
-			if !r.abandon {
-				n.Close()
-			}
-		}()
+		defer n.Close()
 		r.n = n
 		kernel.Wait()
 
@@ -1514,10 +1347,6 @@ func Run(t *testing.T, scAny any, c *kernel.Ctx) error {
 			switch op.K {
 			case "check":
 				if err := r.check(i, op); err != nil {
-					return err
-				}
-			case "par":
-				if err := r.par(i, op); err != nil {
 					return err
 				}
 			case "db":
@@ -1545,7 +1374,7 @@ var _ = sort.Strings
 var Prop = &kernel.Property{
 	ID:    "C19",
 	Level: "exploration",
-	Rule: "seeded histories (rapid): a lookup-service database drawn from the label-suffixes of the pool hosts (full names beyond the four-label cut and public suffixes included as entries that must not decide anything) plus brute-forced names whose SHA-256 shares the 2-byte prefix of a listed or of a clean candidate, plus 0..12 filler full hashes (of no queried name) under the prefix of listed names, pool hosts and their parents, so that one prefix carries up to a dozen hashes (initially and changed by database operations); pool hosts of 1..8 labels under ICANN (com, co.uk, org), private (github.io, blogspot.com, s3.amazonaws.com) and unknown (internal, test, single label) suffixes, mixed case; 10..80 ops = checks through Checker.Check / DNSFilter.CheckHost / the UDP request path (A, AAAA, TXT), all sharing one cache (unlimited, 1 MiB, or 10..512 bytes) with entry lifetime 1 s..1 h, clock advances 0.4 s..1 d, and changes of the service's database between checks (pool hosts, their parents, names beyond the four-label cut, public suffixes and prefix partners become listed / stop being listed); lookup faults error / malformed TXT strings derived from the host's own hashes (wrong length, non-hex, empty, split) / non-TXT records / unrelated full hashes; with the unlimited and 1 MiB caches, phases in which 2-3 Checker.Check calls (the same host, or hosts of the pool, which are parents, children and prefix partners of each other) run as concurrent tasks interleaved by a seeded cooperative scheduler at every operation on the shared cache and at the exchange with the lookup service, each overlapped verdict and the verdicts of the same checks repeated sequentially afterwards being compared with the reference; " +
+	Rule: "seeded histories (rapid): a lookup-service database drawn from the label-suffixes of the pool hosts (full names beyond the four-label cut and public suffixes included as entries that must not decide anything) plus brute-forced names whose SHA-256 shares the 2-byte prefix of a listed or of a clean candidate, plus 0..12 filler full hashes (of no queried name) under the prefix of listed names, pool hosts and their parents, so that one prefix carries up to a dozen hashes (initially and changed by database operations); pool hosts of 1..8 labels under ICANN (com, co.uk, org), private (github.io, blogspot.com, s3.amazonaws.com) and unknown (internal, test, single label) suffixes, mixed case; 10..80 ops = checks through Checker.Check / DNSFilter.CheckHost / the UDP request path (A, AAAA, TXT), all sharing one cache (unlimited, 1 MiB, or 10..512 bytes) with entry lifetime 1 s..1 h, clock advances 0.4 s..1 d, and changes of the service's database between checks (pool hosts, their parents, names beyond the four-label cut, public suffixes and prefix partners become listed / stop being listed); lookup faults error / malformed TXT strings derived from the host's own hashes (wrong length, non-hex, empty, split) / non-TXT records / unrelated full hashes; " +
 		"non-trivial = at least one check answered from the cache AND one lookup sent AND both a listed and a clean name checked AND at least one fault fired or the clock advanced; distinct = distinct scenario digests",
 	Gen: Gen,
 	New: func() any { return &Scenario{} },
@@ -1566,12 +1395,10 @@ var Prop = &kernel.Property{
 		"hashprefix stores an answer by ranging over a Go map, so with a cache small enough to evict, answers with full hashes under two or more prefixes make the LRU order differ from run to run; such cases are not generated (small caches: every pool host has at most one listed prefix among its candidates; multi-prefix answers are exercised with the 1 MiB and unlimited caches)",
 		"outside the statement's quantifier and therefore not generated: a lookup service that answers with a failure response code (SERVFAIL; hashprefix reads only the answer section, so such a reply counts as 'nothing listed' and is cached as such), and a service that answers for listed prefixes it was not asked about (hashprefix stores every prefix an answer mentions as complete knowledge about it); unrelated hashes are only added under prefixes that are unlisted or asked for in the same question",
 		"cache clause as modelled: a verdict that differs from what the service lists now is accepted only if the prefix concerned was not asked about in this check and an earlier answer about it, not older than the configured cache time (boundary inclusive), supports the verdict; whether a lookup is sent after expiry when the verdict would be the same is not asserted; early expiry (1 s granularity of the stored expiry) is allowed",
-		"concurrent phases: the operations on golibs' cache (each takes the cache's mutex) and the exchange with the lookup service are the scheduling points; no lookup faults during a phase; the questions of a phase are not attributed to single checks, so the privacy clause is not judged for overlapped checks (it does not depend on the interleaving); phases are not generated for caches under LRU pressure (listed finding, and eviction order there depends on Go map order)",
 		"an answer that carries an unrelated full hash under a prefix that was not asked about (and is unlisted at that moment) counts as an answer about that prefix: hashprefix caches it as such, and the statement does not say otherwise",
 	},
-	FaultKinds: append([]string{"clock_advance", "db_change", "concurrent_checks"}, faultKinds...),
+	FaultKinds: append([]string{"clock_advance", "db_change"}, faultKinds...),
 	ProbeNames: []string{"truth_blocked", "truth_clean", "answered_from_cache", "cache_hit_blocked", "lookup_sent", "partial_lookup", "expired_refetch", "no_candidates", "host_over_4_labels", "clean_under_listed_prefix", "listed_with_prefix_sibling", "lru_pressure", "check_failed_on_lookup_error",
 		"listed_while_clean_answer_cached", "check_after_expiry_of_changed_verdict", "older_verdict_served_within_cache_time",
-		"listed_under_crowded_prefix", "cache_hit_blocked_crowded_prefix",
-		"par_check", "par_check_listed", "par_lookup_sent", "par_lookups_overlap", "sched_steps", "sched_switches"},
+		"listed_under_crowded_prefix", "cache_hit_blocked_crowded_prefix"},
 }
